@@ -40,7 +40,7 @@ OPEN, END, CLOSE = ('open',), ('end',), ('close',)
 REF_GUARD = 25      # handler nesting beyond which the reference calls a case divergent
 REAL_GUARD = 60     # the real run gets more room, so it only trips on genuine runaway recursion
 REF_CALLS = 400     # total handler calls beyond which the reference calls a case divergent
-REAL_CALLS = 4000   # ... and the real run (again with more room)
+REAL_CALLS = 1500   # ... and the real run (again with more room)
 FUEL = 6000
 
 
@@ -614,6 +614,13 @@ def case_from_json(j):
             'script': [act(a) for a in j['script']]}
 
 
+def why_class(why):
+    for k in ('recursed without bound', 'while', 'does not match', 'not idle', 'exception status', 'delivery log differs'):
+        if k in why:
+            return k
+    return why[:30]
+
+
 def oracle_bad(case):
     ref = reference(case)
     return ref[0] == 'ok' and any(k == 'oracle' for k, _ in judge(case, run_real(case), ref, None))
@@ -642,28 +649,29 @@ def process(R, name, cases):
         stats['cases'] += 1
         for kind, detail in judge(case, real, ref, model):
             stats[kind] += 1
-            reported[kind] += 1
-            if reported[kind] <= 3:
+            klass = (kind, why_class(detail.get('why', '')))
+            reported[klass] += 1
+            if reported[klass] <= 2:
                 if kind == 'oracle':
                     small = shrink(case, oracle_bad)
-                    r2, f2 = run_real(small), reference(small)
-                    js = judge(small, r2, f2, None)
+                    js = judge(small, run_real(small), reference(small), None)
                     detail = dict(js[0][1], shrunk_from=case_json(case)) if js else detail
                     R.fail('oracle', case_json(small, stream=name), detail, key=None)
                 else:
                     R.fail('correspondence', case_json(case, stream=name), detail)
-            elif reported[kind] <= 40:
+            elif reported[klass] <= 10:
                 R.fail(kind, case_json(case, stream=name), {'why': detail.get('why')}, key=None)
     return stats
 
 
 def stream_exhaustive(R):
-    nmax = R.pick(4, 5)
     memo = {}
     total = collections.Counter()
     ncases = 0
+    deep = 'reentrant'
     for sname, setup in EX_SETUPS:
         cases = []
+        nmax = 5 if (sname == deep and not R.quick()) else 4
         for n in range(1, nmax + 1):
             for s in scripts_of_size(n, EX_ATOMS, EX_IGNORE, memo):
                 cases.append({'parents': TREE, 'handlers': EX_HANDLERS, 'script': setup + renumber(s)})
@@ -672,14 +680,14 @@ def stream_exhaustive(R):
     R.sample(case_json({'parents': TREE, 'handlers': EX_HANDLERS,
                         'script': EX_SETUPS[2][1] + renumber([('D', [('B', 0, 1), ('D', [('B', 0, 2)]), ('B', 0, 3)])])}))
     R.stream('exhaustive', cases=ncases, exhaustive=True, stats=dict(total),
-             bound='every script of 1..%d action nodes over %d atoms (3 broadcasts, raise, 2 subscribes, unsubscribe, unsubscribe_all), '
+             bound='every script of 1..4 action nodes (1..%d after the set-up "reentrant") over %d atoms (3 broadcasts, raise, 2 subscribes, unsubscribe, unsubscribe_all), '
                    'delay blocks and ignore blocks of class 2 nested freely, after each of %d fixed subscription set-ups; class tree %r; '
                    '6 handler scripts (record / broadcast / open a delay block / unsubscribe_all / subscribe+unsubscribe / ignore+nested delay)'
-                   % (nmax, len(EX_ATOMS), len(EX_SETUPS), TREE))
+                   % (R.pick(4, 5), len(EX_ATOMS), len(EX_SETUPS), TREE))
 
 
 def stream_random(R):
-    n = R.pick(6000, 120000)
+    n = R.pick(6000, 100000)
     cases = []
     for i in range(n):
         cases.append(rand_case(R.subrng('rand', i), big=(i % 3 == 0)))
@@ -689,6 +697,64 @@ def stream_random(R):
     R.stream('random', cases=n, exhaustive=False, stats=dict(stats),
              bound='class trees %r; 1-3 listeners; up to 5 random handler scripts (<= 4 nodes, nesting <= 2, no raise); '
                    '1-5 initial subscriptions; scripts of 2-12 nodes, delay/ignore nesting <= 4' % TREES)
+
+
+def stream_find_handlers(R):
+    """Hub._find_handlers alone on random subscription tables: who, most specific class, filter, priority order, ties"""
+    from glue.core.hub import Hub
+    import functools
+    n = R.pick(1500, 12000)
+    lines, expect, keys = [], [], []
+    bad = 0
+    for i in range(n):
+        rng = R.subrng('fh', i)
+        parents = rng.choice(TREES)
+        ncls = len(parents)
+        case = {'parents': parents, 'handlers': [[]] * 6, 'script': []}
+        rr = RealRun(case)
+        table = collections.OrderedDict()
+        for _ in range(rng.randint(1, 9)):
+            l, c, h = rng.randrange(5), rng.randrange(ncls), rng.randrange(6)
+            f, p = rng.choice([0, 0, 0, 1, 2, 3]), rng.choice([10, 10, 5, 20, 20, 0, -1])
+            rr.interp([('S', l, c, h, f, p)])
+            table.setdefault(l, collections.OrderedDict())[c] = (h, f, p)
+            if rng.random() < 0.15:
+                l2, c2 = rng.randrange(5), rng.randrange(ncls)
+                rr.interp([('U', l2, c2)])
+                table.get(l2, {}).pop(c2, None)
+        for c in range(ncls):
+            for ident in (1, 2):
+                msg = rr.classes[c](None, tag=ident)
+                impl = [(sub.lid, 0 if isinstance(hd, functools.partial) else hd.h) for sub, hd in rr.hub._find_handlers(msg)]
+                # the property, directly: per listener the nearest subscribed ancestor, its filter, stable priority order
+                anc = [c]
+                while parents[anc[-1]] != anc[-1]:
+                    anc.append(parents[anc[-1]])
+                want = []
+                for l, d in table.items():
+                    near = [a for a in anc if a in d]
+                    if near and REF_FILTERS[d[near[0]][1]](ident):
+                        want.append((l, d[near[0]][0], d[near[0]][2]))
+                want = [(l, h) for l, h, p in sorted(want, key=lambda x: -x[2])]
+                tb = [(l, [(cc,) + v for cc, v in d.items()]) for l, d in table.items()]
+                R.count(('fh', tuple(parents), repr(tb), c, ident), nontrivial=len(want) > 0, stream='find_handlers', recipients=len(want))
+                lines.append(enc((2, [(0, list(parents)), (0, [(l, [(0, list(e)) for e in ent]) for l, ent in tb]), ident, c])))
+                expect.append(impl)
+                keys.append({'stream': 'find_handlers', 'parents': list(parents), 'table': tb, 'message': [ident, c]})
+                if impl != want:
+                    bad += 1
+                    if bad <= 3:
+                        R.fail('oracle', keys[-1], {'why': '_find_handlers differs from the property', 'impl': impl, 'expected': want}, key=None)
+    if R.model_available:
+        bad = 0
+        for k, impl, t in zip(keys, expect, R.model(lines)):
+            model = [tuple(x[0] for x in kids(e)) for e in kids(t)]
+            if model != impl:
+                bad += 1
+                if bad <= 3:
+                    R.fail('correspondence', k, {'why': 'find_handlers: model and implementation differ', 'impl': impl, 'model': model})
+    R.stream('find_handlers', cases=len(lines), exhaustive=False,
+             bound='%d random tables (<= 5 listeners, <= 9 (un)subscriptions, 7 priorities with ties, 4 filters) x every class x 2 identities' % n)
 
 
 def stream_divergent(R):
@@ -714,12 +780,41 @@ def run(R):
               'divergent and skipped' % (REF_GUARD, REF_CALLS))
     R.exhaustive = True
     stream_divergent(R)
+    stream_find_handlers(R)
     stream_exhaustive(R)
     stream_random(R)
 
 
+def replay_find_handlers(R, case):
+    import functools
+    parents, tb, (ident, c) = case['parents'], case['table'], case['message']
+    rr = RealRun({'parents': parents, 'handlers': [[]] * 6, 'script': []})
+    for l, ent in tb:
+        for cc, h, f, p in ent:
+            rr.interp([('S', l, cc, h, f, p)])
+    impl = [(sub.lid, 0 if isinstance(hd, functools.partial) else hd.h)
+            for sub, hd in rr.hub._find_handlers(rr.classes[c](None, tag=ident))]
+    anc = [c]
+    while parents[anc[-1]] != anc[-1]:
+        anc.append(parents[anc[-1]])
+    want = []
+    for l, ent in tb:
+        d = {e[0]: e[1:] for e in ent}
+        near = [a for a in anc if a in d]
+        if near and REF_FILTERS[d[near[0]][1]](ident):
+            want.append((l, d[near[0]][0], d[near[0]][2]))
+    want = [(l, h) for l, h, p in sorted(want, key=lambda x: -x[2])]
+    model = None
+    if R.model_available:
+        t = R.model([enc((2, [(0, list(parents)), (0, [(l, [(0, list(e)) for e in ent]) for l, ent in tb]), ident, c]))])[0]
+        model = [tuple(x[0] for x in kids(e)) for e in kids(t)]
+    return {'case': case, 'implementation': impl, 'expected': want, 'model': model, 'violates': impl != want}
+
+
 def replay(R, case):
     sys.setrecursionlimit(max(sys.getrecursionlimit(), 8000))
+    if case.get('stream') == 'find_handlers':
+        return replay_find_handlers(R, case)
     c = case_from_json(case)
     real, ref = run_real(c), reference(c)
     model = dec_model(R.model([enc_case(c)])[0]) if R.model_available else None
